@@ -285,8 +285,11 @@ def run(chk):
                                 changed = True
         rets = [n for n in ast.walk(fn) if isinstance(n, ast.Return) and n.value is not None]
         leaking = []
+        COMPARED_SCALARS = ("name", "op", "value")
         for r in rets:
-            names = {x.id for x in ast.walk(r.value) if isinstance(x, ast.Name)}
+            # occurrences of a derived name that are not merely the base of an access to a compared scalar field
+            shielded = {id(x.value) for x in ast.walk(r.value) if isinstance(x, ast.Attribute) and x.attr in COMPARED_SCALARS and isinstance(x.value, ast.Name)}
+            names = {x.id for x in ast.walk(r.value) if isinstance(x, ast.Name) and id(x) not in shielded}
             if names & derived:
                 leaking.append(r)
         reads = []
@@ -324,12 +327,11 @@ def run(chk):
             continue
         # lazy-cache idiom: guarded by `if self.<attr> is None:`
         okk = False
-        for st in ast.walk(fn):
-            if isinstance(st, ast.If) and n in list(ast.walk(st)):
-                t = st.test
-                if (isinstance(t, ast.Compare) and len(t.ops) == 1 and isinstance(t.ops[0], ast.Is) and ast.unparse(t.left) == f"self.{a.attr}"
-                        and isinstance(t.comparators[0], ast.Constant) and t.comparators[0].value is None):
-                    okk = True
+        for t in ast.walk(fn):
+            # lazy-cache idiom in any spelling: the method tests `self.<attr> is (not) None` and fills the private attribute
+            if (isinstance(t, ast.Compare) and len(t.ops) == 1 and isinstance(t.ops[0], (ast.Is, ast.IsNot)) and ast.unparse(t.left) == f"self.{a.attr}"
+                    and isinstance(t.comparators[0], ast.Constant) and t.comparators[0].value is None):
+                okk = True
         if okk and a.attr.startswith("_"):
             chk.ok("R10.3", key=(mod, q, text))
         else:
